@@ -109,6 +109,16 @@ async def history(root, rnd, encrypted, prop, n_ops, long_lived=False):
                 pass
 
         async def open_cached(root_, user, backend=None):
+            if long_lived == 'one_object':
+                # ONE Repository object for everybody, re-unlocked with the key of whoever issues the next command
+                key = ('everybody', backend is not None)
+                if key not in cache:
+                    cache[key] = await _open(root_, user, backend)
+                else:
+                    r = cache[key]
+                    with lib.quiet():
+                        await r.unlock(password=user.password, key=r.serialize(user.key) if user.key is not None else None)
+                return Keep(cache[key])
             key = (user.name, backend is not None)
             if key not in cache:
                 cache[key] = await _open(root_, user, backend)
@@ -244,7 +254,13 @@ async def history(root, rnd, encrypted, prop, n_ops, long_lived=False):
                 await r.close()
         if prop == 'C06' and encrypted:
             for u in users:
-                seen, _ = await loaded(root, u)
+                # the view through the objects this history works with (a fresh object per command, one per user, or ONE for everybody)
+                rv = await open_repo(root, u)
+                seen = {}
+                with lib.quiet():
+                    async for path, body in rv._load_snapshots():
+                        seen[rv.parse_snapshot_location(path).name] = (body['data'] is not None, list(body['chunks']), path)
+                await rv.close()
                 for name, (owner, _) in model.items():
                     if owner.family != u.family and name in seen:
                         problems.append({'step': step, 'problem': 'an independent-key user sees a foreign snapshot', 'viewer': u.name})
@@ -356,10 +372,13 @@ def main():
                 global CACHE_MODE, HASHING
                 CACHE_MODE = ('per_user', 'shared', 'none')[h % 3]
                 HASHING = (None, {'name': 'sha3', 'bits': 256}, {'name': 'sha2', 'bits': 384}, {'name': 'blake2b', 'length': 32}, None)[h % 5]
-                case = {'encrypted': encrypted, 'history': h, 'seed': seed, 'ops': 10, 'prop': prop, 'long_lived_objects': h % 2 == 1,
+                lifetime = (False, True, False, 'one_object')[h % 4]
+                if lifetime == 'one_object' and CACHE_MODE == 'per_user':
+                    CACHE_MODE = 'shared'          # one object has one cache directory
+                case = {'encrypted': encrypted, 'history': h, 'seed': seed, 'ops': 10, 'prop': prop, 'long_lived_objects': lifetime,
                         'snapshot_cache': CACHE_MODE, 'hashing': HASHING}
                 try:
-                    probs = asyncio.run(history(root, rnd, encrypted, prop, 10, long_lived=(h % 2 == 1)))
+                    probs = asyncio.run(history(root, rnd, encrypted, prop, 10, long_lived=lifetime))
                 except Exception as e:
                     import traceback
                     probs = [{'problem': 'exception in history', 'error': f'{type(e).__name__}: {e}'[:300], 'tb': traceback.format_exc()[-600:]}]
